@@ -15,7 +15,7 @@ import (
 )
 
 func init() {
-	vc.Register(&vc.Check{ID: "C20", Level: "model_checking", Run: run, Replay: replay, QuickSec: 70, ThoroSec: 1000, NeedsInst: true,
+	vc.Register(&vc.Check{ID: "C20", Level: "model_checking", Run: run, Replay: replay, QuickSec: 80, ThoroSec: 1000, NeedsInst: true,
 		Rule: "systematic schedule exploration of the REAL library code (instrumented from the working tree at every run: package sync replaced by a scheduler-aware shim, a scheduling marker before every statement of reader, verifier, mobile and the cms certificate pools). Scenarios S1 shared reader.Reader (ReadDocument || SkipImages || WithAAChallenge), S2 shared verifier.Verifier (Verify || WithAAChallenge(c') || Verify), S3 shared mobile.Reader (ReadDocument || SetApduMaxLe;SkipImages || ReadDocument on one chip), S4 two readers + one verifier sharing a GenericCertPool inside a CombinedCertPool, S5/S5f three mobile.PreloadCscaCertPool + mobile.Verifier.Verify on the lazily loaded built-in store (S5f: a loader fails); fresh objects, a deterministic BAC + active-authentication chip (about 35 exchanges per read) and per-thread deterministic randomness in every execution. Per scenario EVERY schedule with at most P preemptions is executed (replay-prefix DFS; forced switches are free), at two granularities: 'sync' = scheduling points at every Lock/Unlock/Once.Do, every Transceive, every status callback, every trust store loader, every call of a certificate pool method (S1, S2, S4; in S3/S5 the pool traffic is not shared and these points are left to statement granularity) and thread start; 'stmt' = additionally before every statement of the instrumented files. Bounds per scenario are listed in coverage.scenarios. Oracle: the joint outcome (every call's result: error, files with content hashes, verdicts, AA nonce, exchanges; plus what the chip / status listener / loader counters saw) equals the outcome of SOME sequential order of the same calls (brute force over all interleavings of whole calls); S5: loaders ran exactly once and all callers saw one pool / one error; no deadlock; no panic. evaluations = schedules executed to completion and judged; states = distinct control states (vector of per-thread operation histories) at choice points, per worker; transitions = scheduling points executed; traces_validated_against_impl = executions of the real code; distinct_nontrivial = distinct (scenario, granularity, preemptions, outcome). The free-running -race pass (same bodies, real goroutines, shim in pass-through) is run by run_c20.sh after this part.",
 		Assume: []string{
 			"scheduling points are statement boundaries of the instrumented files and the shim operations: interleavings inside one statement (expression evaluation order) and inside uninstrumented packages (iso7816, document, passiveauth, cms parsing) are not explored; those packages are only reached through per-call objects in these scenarios",
@@ -138,8 +138,9 @@ func run(c *vc.Ctx) {
 			states: map[vs.Granularity]map[uint64]struct{}{vs.GranSync: {}, vs.GranStmt: {}}, cut: map[vs.Granularity]bool{}})
 	}
 	c.Extra("scenarios", scInfo)
-	// pass 0: every scenario up to its quick bounds. pass 1 (thorough only): the additional layers, so that a
-	// deadline can only ever cut the deepest layers.
+	// Order of work: preemption bound outermost (bound 0 of every scenario and granularity, then bound 1, ...),
+	// first up to the quick bounds, then (thorough) the additional layers. A deadline - or a loaded machine -
+	// can therefore only cut the deepest layers, and everything that needs a single preemption is found early.
 	passes := 1
 	if c.Thorough() {
 		passes = 2
@@ -147,22 +148,25 @@ func run(c *vc.Ctx) {
 	grans := []vs.Granularity{vs.GranSync, vs.GranStmt}
 	expired := false
 	for pass := 0; pass < passes && !expired; pass++ {
-		for _, p := range progs {
-			for _, gran := range grans {
-				b := p.sc.syncBound
-				if gran == vs.GranStmt {
-					b = p.sc.stmtBound
-				}
-				lo, hi := 0, b[0]
-				if pass == 1 {
-					lo, hi = b[0]+1, b[1]
-				}
-				for B := lo; B <= hi && !p.violated && !expired && !p.cut[gran]; B++ {
+		for B := 0; B <= 8 && !expired; B++ {
+			for _, p := range progs {
+				for _, gran := range grans {
+					b := p.sc.syncBound
+					if gran == vs.GranStmt {
+						b = p.sc.stmtBound
+					}
+					lo, hi := 0, b[0]
+					if pass == 1 {
+						lo, hi = b[0]+1, b[1]
+					}
+					if B < lo || B > hi || p.violated || expired || p.cut[gran] || p.done[gran] != B-1 {
+						continue
+					}
 					if !exploreLayer(c, e, p, gran, B, hi) {
 						if c.Expired() {
 							expired = true
 						}
-						break
+						continue
 					}
 					p.done[gran] = B
 				}
@@ -261,6 +265,7 @@ func exploreLayer(c *vc.Ctx, e *env, p *scProgress, gran vs.Granularity, B, maxB
 		} else {
 			c.Outcome(secCont, "no thread ever waited")
 		}
+		c.Eval(-2) // one evaluation per judged schedule (it is tallied in three sections)
 		c.Distinct(fmt.Sprintf("%s|%s|%d|%s", sc.id, gran, ex.Preemptions, lastO.Key()))
 		if key != "" {
 			p.violated = true
